@@ -109,6 +109,14 @@ def parse_spec(path):
                 # "@@status wip <why>": unit is under construction: never run by a property check, never counted
                 spec['status'] = arg.split()[0]
                 spec['status_note'] = arg
+            elif key == 'cex':
+                # "@@cex unwind=5 NCAP=2 NZCAP=3": bound and capacity defines of the counterexample SEARCH (tools/witness.py)
+                for kv in arg.split():
+                    k, v = kv.split('=')
+                    if k == 'unwind':
+                        spec['cex_unwind'] = int(v)
+                    else:
+                        spec.setdefault('cex_defines', []).append(kv)
             elif key == 'object_bits':
                 spec['object_bits'] = int(arg)
             elif key == 'mode':
@@ -273,8 +281,117 @@ def subst_capsz(text, enforced):
     return ''.join(out)
 
 
+
+# ---------------------------------------------------------------- CBMC 6.11 havoc_slice workaround
+_CONST_ID = re.compile(r'[A-Z][A-Z0-9_]*$')
+
+
+def _is_symbolic_size(expr):
+    e = re.sub(r'sizeof\s*\([^()]*\)', '1', expr)
+    e = re.sub(r'sizeof\s*\*?\s*\w+', '1', e)
+    return any(not _CONST_ID.match(i) for i in re.findall(r'[A-Za-z_]\w*', e))
+
+
+def _split_top(s, sep):
+    parts, depth, cur = [], 0, ''
+    for ch in s:
+        if ch in '([{':
+            depth += 1
+        elif ch in ')]}':
+            depth -= 1
+        if ch == sep and depth == 0:
+            parts.append(cur)
+            cur = ''
+        else:
+            cur += ch
+    parts.append(cur)
+    return parts
+
+
+def _split_binary_star(s):
+    """split at top-level BINARY '*' (a '*' that follows an operand); a unary '*' (dereference) stays in its factor"""
+    parts, depth, cur = [], 0, ''
+    for ch in s:
+        if ch in '([{':
+            depth += 1
+        elif ch in ')]}':
+            depth -= 1
+        prev = cur.rstrip()[-1:] if cur.strip() else ''
+        if ch == '*' and depth == 0 and prev and (prev.isalnum() or prev in '_)]'):
+            parts.append(cur)
+            cur = ''
+        else:
+            cur += ch
+    parts.append(cur)
+    return parts
+
+
+def _last_element_target(ptr, size):
+    """for object_upto(ptr, size) with a non-constant size: the typed lvalue of the last element and its guard"""
+    factors = [f.strip() for f in _split_binary_star(size)]
+    T, rest = None, []
+    for f in factors:
+        m = re.fullmatch(r'sizeof\s*\((.*)\)', f, flags=re.S)
+        if m and T is None:
+            T = m.group(1).strip()
+        else:
+            rest.append(f)
+    if T is None:
+        T, cnt = 'char', size.strip()
+    else:
+        cnt = ' * '.join('(%s)' % f for f in rest) if rest else '1'
+    return '(%s) > 0' % cnt, '((__typeof__(%s) *)(%s))[(%s) - 1]' % (T, ptr.strip(), cnt)
+
+
+def fix_upto(text):
+    """CBMC 6.11 under-havoc workaround (measured on the real dgsequ unit, see DESIGN.md 2 and tools/canary_havoc.c):
+    when the byte size S of `__CPROVER_object_upto(p, S)` is not a compile-time constant, the HAVOC performed for
+    that target (loop assigns at the loop head, assigns of a replaced callee) leaves the last element of the slice
+    untouched, so the proof silently covers only states in which that element already has its final value.
+    A typed lvalue target is havocked exactly. For every such target this adds, in the same assigns clause, the
+    conditional group `(count) > 0: ((T *)p)[count - 1]`, i.e. the last element again as an lvalue. The frame is
+    unchanged (the element is inside the slice already); only the havoc becomes complete."""
+    out, i = [], 0
+    pat = re.compile(r'__CPROVER_assigns\s*\(')
+    upto = re.compile(r'^\s*(?:__CPROVER_object_upto|UPTO)\s*\((.*)\)\s*$', flags=re.S)
+    while True:
+        m = pat.search(text, i)
+        if not m:
+            out.append(text[i:])
+            break
+        lp = m.end() - 1
+        depth, j = 0, lp
+        while True:
+            if text[j] == '(':
+                depth += 1
+            elif text[j] == ')':
+                depth -= 1
+                if depth == 0:
+                    break
+            j += 1
+        body = text[lp + 1:j]
+        groups = _split_top(body, ';')
+        extra = []
+        for g in groups:
+            parts = _split_top(g, ':')
+            cond, targets = (parts[0].strip(), ':'.join(parts[1:])) if len(parts) > 1 else (None, g)
+            for tg in _split_top(targets, ','):
+                mu = upto.match(tg)
+                if not mu:
+                    continue
+                args = _split_top(mu.group(1), ',')
+                if len(args) != 2 or not _is_symbolic_size(args[1]):
+                    continue
+                guard, lv = _last_element_target(args[0], args[1])
+                extra.append('%s%s: %s' % (('(%s) && ' % cond) if cond else '', guard, lv))
+        if extra and '/*VF-last*/' not in body:
+            body = body.rstrip().rstrip(';') + '; /*VF-last*/ ' + '; '.join(extra)
+        out.append(text[i:lp + 1] + body + ')')
+        i = j + 1
+    return ''.join(out)
+
 # ---------------------------------------------------------------- main pipeline
-def build_unit(spec, tier, workdir, repo_root=None, variant_defs=(), extra_defs=()):
+def build_unit(spec, tier, workdir, repo_root=None, variant_defs=(), extra_defs=(), cex_mode=False):
     """Overlay + goto-cc + goto-instrument. Returns dict(gb=path, cmds=[...], inserted=..., sources=[...])."""
     reg = registry()
     root = repo_root or REPO
@@ -334,7 +451,7 @@ def build_unit(spec, tier, workdir, repo_root=None, variant_defs=(), extra_defs=
         # CAPSZ(n, cap): size of a caller-provided array. In the contract of the function under proof the
         # object gets the constant capacity `cap` (symbolic-size heap objects are intractable, DESIGN 2); at a
         # replaced call site the caller must provide the logical size `n`.
-        text = subst_capsz(text, enforced=(fn == enforce))
+        text = fix_upto(subst_capsz(text, enforced=(fn == enforce)))
         if fn == enforce:
             for (cname, cexpr) in spec['covers']:
                 text += '\n__CPROVER_ensures(!(%s)) /*VF_COVER %s*/' % (cexpr, cname)
@@ -358,7 +475,7 @@ def build_unit(spec, tier, workdir, repo_root=None, variant_defs=(), extra_defs=
         rel = defined_in(fn)
         if rel is None:
             raise Undecided('loop contract for %s: function not found in sources' % fn)
-        loops_by_file.setdefault(rel, []).append((fn, ordn, kw, fp, text))
+        loops_by_file.setdefault(rel, []).append((fn, ordn, kw, fp, fix_upto(text)))
 
     with open(os.path.join(srcdir, 'vf_replaced.h'), 'w') as f:
         f.write('/* generated: body-less declarations carrying the contracts of replaced callees */\n')
@@ -428,11 +545,11 @@ def build_unit(spec, tier, workdir, repo_root=None, variant_defs=(), extra_defs=
     out = err = ''
     if spec['instrument'] == 'dfcc':
         cmd2 = ['goto-instrument', '--dfcc', entry]
-        if enforce:
+        if enforce and not cex_mode:
             cmd2 += ['--enforce-contract', enforce]
         for g in replace:
             cmd2 += ['--replace-call-with-contract', g]
-        if spec['loops'] or spec['mode'] == 'proof':
+        if (spec['loops'] or spec['mode'] == 'proof') and not cex_mode:
             cmd2 += ['--apply-loop-contracts']
         cmd2 += [gb0, gb1]
         steps = [cmd2]
@@ -441,8 +558,10 @@ def build_unit(spec, tier, workdir, repo_root=None, variant_defs=(), extra_defs=
         # needs a loop-free body), then replace/enforce
         gbm = os.path.join(workdir, 'm.gb')
         steps = [['goto-instrument', '--apply-loop-contracts', gb0, gbm]]
+        if cex_mode:
+            steps, gbm = [], gb0
         cmd2 = ['goto-instrument']
-        if enforce:
+        if enforce and not cex_mode:
             cmd2 += ['--enforce-contract', enforce]
         for g in replace:
             cmd2 += ['--replace-call-with-contract', g]
